@@ -11,8 +11,8 @@ setup_repo_path()
 from taskiq import Context, TaskiqDepends  # noqa: E402
 
 VALUES: List[Any] = [
-    0, -1, 2**63, -(2**200),
-    0.0, -0.0, 1e-320, 1.5, 1e308, float("inf"), float("-inf"), float("nan"),
+    0, 1, -1, 2**63, -(2**200),
+    0.0, -0.0, 1.0, 1e-320, 1.5, 1e308, float("inf"), float("-inf"), float("nan"),
     True, False,
     "", "True", "1", "é", " ", "\ud800",
     b"", b"\x00\xff", b"abcd",
@@ -23,8 +23,8 @@ META = {
     "kind": "graph",
     "engine": "E3: closed-loop enumeration of label dictionaries x delivery histories, and explicit-state BFS over kicker operation sequences, against reference models",
     "rule": (
-        "(a) every label dictionary of <= 2 entries over a 23-value alphabet of the five primitive types (ints 0, -1, 2^63, "
-        "-2^200; floats 0.0, -0.0, 1e-320, 1.5, 1e308, inf, -inf, nan; bools; str '', 'True', '1', 'e-acute', ' ', a lone "
+        "(a) every label dictionary of <= 2 entries over a 25-value alphabet of the five primitive types (ints 0, 1, -1, 2^63, "
+        "-2^200; floats 0.0, -0.0, 1.0, 1e-320, 1.5, 1e308, inf, -inf, nan; bools; str '', 'True', '1', 'e-acute', ' ', a lone "
         "surrogate; bytes b'', b'\\x00\\xff', b'abcd'), set on the task or on the kicker, through the JSON and pickle "
         "serializers, observed in a recording pre_execute middleware, in Context.message.labels and in the stored "
         "TaskiqResult.labels, on first delivery and after every sequence of <= 3 steps over {retry via the real "
@@ -32,11 +32,13 @@ META = {
         "(b) BFS over operation sequences of depth <= 4 on one task (ordinary and shared) over {kiq(), "
         "kicker().with_labels(a=1).kiq(), kicker().with_labels(b=2).kiq(), kicker().with_task_id(x).kiq(), "
         "kicker().with_broker(other).kiq()}; state = task.labels + what the last send carried; reference: every send carries "
-        "declared labels + its own overrides, declared labels never change, ids/brokers do not carry over. states/transitions "
+        "declared labels + its own overrides, declared labels never change, ids/brokers do not carry over. (c) every ordered "
+        "pair of alphabet values as the label of two consecutive unrelated sends in one process (values that compare "
+        "equal across types - True/1/1.0, False/0/0.0/-0.0 - must not influence each other). states/transitions "
         "= those of (b) plus one state per delivery observed in (a)."
     ),
     "assumptions": ["ORJSON / MsgPack / CBOR serializers cannot be imported in this image and are not covered"],
-    "required_counters": ["label_cases", "deliveries_checked", "kicker_sequences", "requeues", "retries"],
+    "required_counters": ["label_cases", "deliveries_checked", "kicker_sequences", "requeues", "retries", "send_pairs"],
     "bounds": {"quick": {"dict_size": "1 (all), 2 (all pairs with the first value from a 9-value subset)", "steps": "<=2"},
                "thorough": {"dict_size": "<=2 (all ordered pairs)", "steps": "<=3"}},
 }
@@ -54,7 +56,7 @@ def same(a: Any, b: Any) -> bool:
 
 def label_dicts(tier: str) -> List[Dict[str, Any]]:
     out = [{"a": v} for v in VALUES]
-    firsts = VALUES if tier == "thorough" else [VALUES[i] for i in (0, 3, 5, 9, 11, 12, 15, 19, 21)]
+    firsts = VALUES if tier == "thorough" else [VALUES[i] for i in (0, 4, 6, 11, 13, 14, 17, 21, 23)]
     for v1 in firsts:
         for v2 in VALUES:
             out.append({"a": v1, "b": v2})
@@ -216,6 +218,21 @@ def _dec(e: Any) -> Any:
     return "".join(chr(c) for c in v)
 
 
+# ------------------------------------------------------------------------------------------ (c)
+
+def run_send_pairs(acc: Acc) -> None:
+    """Two sends in one process: every ordered pair (v1, v2) of the value alphabet as the label of
+    two consecutive, unrelated sends (state carried between calls, e.g. caches keyed by value)."""
+    for v1, v2 in itertools.product(VALUES, repeat=2):
+        for where in ("task", "kicker"):
+            for val in (v1, v2):
+                before = acc.violation_count
+                run_label_case({"a": val}, where, "json", (), acc)
+                if acc.violation_count != before:
+                    acc.count("pair_violations")
+        acc.count("send_pairs")
+
+
 # ------------------------------------------------------------------------------------------ (b)
 OPS = ["kiq", "labels_a", "labels_b", "task_id", "broker"]
 
@@ -342,7 +359,7 @@ def label_cases(tier: str) -> List[Tuple[int, str, str, int]]:
 def shards(tier: str, seed: int) -> List[Any]:
     n = len(label_cases(tier))
     out: List[Any] = [("labels", tier, i, min(i + 1500, n)) for i in range(0, n, 1500)]
-    out += [("kicker", tier, False), ("kicker", tier, True)]
+    out += [("kicker", tier, False), ("kicker", tier, True), ("pairs", tier, 0)]
     return out
 
 
@@ -353,6 +370,8 @@ def run_shard(shard: Any) -> Dict[str, Any]:
         dicts, seqs = label_dicts(tier), step_seqs(tier)
         for (di, where, ser, si) in label_cases(tier)[lo:hi]:
             run_label_case(dicts[di], where, ser, seqs[si], acc)
+    elif shard[0] == "pairs":
+        run_send_pairs(acc)
     else:
         run_kicker_bfs(shard[2], 3 if shard[1] == "quick" else 4, acc)
     return acc.as_dict()
